@@ -7,6 +7,7 @@ import (
 	"encoding/json"
 	"fmt"
 	"os"
+	"os/signal"
 	"path/filepath"
 	"time"
 
@@ -143,6 +144,11 @@ func main() {
 	if len(os.Args) < 2 || os.Args[1] != "caller" {
 		fmt.Fprintln(os.Stderr, "usage: proc caller   (with GLB_VERIF_PAUSE_DIR set)")
 		os.Exit(2)
+	}
+	if os.Getenv("GLB_VERIF_CALLER_IGNORES_SIGINT") != "" {
+		// a caller that does not want to be interrupted (or one started as a background job): the
+		// launcher and the daemon inherit the ignored disposition
+		signal.Ignore(os.Interrupt)
 	}
 	pid, err := daemon.Launch(name)
 	r := result{Pid: pid, MarkerAtReturn: exists("marker"), DoneAtReturn: exists("daemon.done-calling"), CallerPid: os.Getpid()}
